@@ -34,6 +34,7 @@ type HookTrace struct {
 	Coe     bool       `json:"coe"`
 	Emit    bool       `json:"emit"`
 	Deps    [][]int    `json:"deps"`
+	JCtx    []int      `json:"jctx"` // context (1 or 2) per job; filled by the driver
 	Caller  []HookEv   `json:"caller"`
 	Loop    []HookEv   `json:"loop"`
 	Workers [][]HookEv `json:"workers"`
@@ -174,7 +175,7 @@ func (c *Collector) TakeAll(run int) []HookTrace {
 }
 
 func (s *schedRec) trace(run int) HookTrace {
-	t := HookTrace{Run: run, NJ: len(s.jobs), N: s.n, Coe: s.coe, Emit: s.emit, Deps: s.depsL,
+	t := HookTrace{Run: run, NJ: len(s.jobs), N: s.n, Coe: s.coe, Emit: s.emit, Deps: s.depsL, JCtx: []int{},
 		Caller: []HookEv{}, Loop: []HookEv{}, Workers: [][]HookEv{}}
 	if t.Deps == nil {
 		t.Deps = [][]int{}
